@@ -291,6 +291,9 @@ _RESET = {
     "std::option::Option::take": lambda args, targs=(): ("agg", "std::option::Option", "None", ()),
     "std::mem::take": lambda args, targs=(): _default_of(targs[0] if targs else None),
     "std::mem::replace": lambda args, targs=(): args[0] if args else ("unknown",),
+    # opt.replace(v) / opt.insert(v): the place becomes Some(v)
+    "std::option::Option::replace": lambda args, targs=(): ("agg", "std::option::Option", "Some", (("fld", "0", args[0]),)) if args else ("unknown",),
+    "std::option::Option::insert": lambda args, targs=(): ("agg", "std::option::Option", "Some", (("fld", "0", args[0]),)) if args else ("unknown",),
 }
 
 
